@@ -26,6 +26,10 @@ def plan(tier, seed):
     n = 320 if tier == "quick" else 3000
     for k in range(n):
         specs.append({"klass": f"{k % 4}_singularities", "i": k, "n_sing": k % 4, "fill": k >= 12})
+    for k in range(48 if tier == "quick" else 400):
+        # the result of remove_singularities is itself a model (finite at the former singular value): removing singularities from
+        # it again must leave it as it is there.  Kept to <= 1 removable singularity (the listed k-fold finding would compound)
+        specs.append({"klass": "applied_twice", "i": 20000 + k, "n_sing": (1, 1, 0)[k % 3], "fill": k >= 12, "twice": True})
     for s in specs:
         s["prop"] = ID
         s.setdefault("soft_timeout", 120)
@@ -165,6 +169,18 @@ def run_case(spec, ctx):
         out["violations"].append({"kind": "remove_singularities_raises", "detail": {"exc": rs.describe()[:300], "site": C.trace_site(rs.exc, 3), "expr": expr}})
         return finish(out, text, spec, sing)
     ode2 = rs.value
+    if spec.get("twice"):
+        rs2 = C.call(ode2.remove_singularities)
+        out["evaluations"] += 1
+        if not rs2.ok:
+            out["violations"].append({"kind": "remove_singularities_raises", "detail": {"exc": rs2.describe()[:300], "site": C.trace_site(rs2.exc, 3), "expr": expr, "application": "second"}})
+            return finish(out, text, spec, sing, ode=ode, target=target)
+        once_code = C.py_code(ode2)
+        if once_code.ok:
+            out["_once_module"] = PyModule(once_code.value)
+        ode2 = rs2.value
+        cn["applied_twice"] = 1
+        out["hash"] += ":twice"
     c1, c2 = C.py_code(ode), C.py_code(ode2)
     if not c1.ok:
         out.update(status="skipped", reason="original cannot be generated (C01)")
@@ -238,7 +254,8 @@ def finish(out, text, spec, sing, ode=None, target=None):
     if out["violations"]:
         out["status"] = "violated"
     for v in out["violations"]:
-        F.classify(ID, v, text=text, n_sing=len(sing), ode=ode, target=target)
+        F.classify(ID, v, text=text, n_sing=len(sing), ode=ode, target=target, once=out.get("_once_module"), twice=bool(spec.get("twice")))
+    out.pop("_once_module", None)
     out["model_text"] = text if out["violations"] else None
     if spec["i"] % 7 == 0:
         out["sample"] = {"klass": spec["klass"], "model_text": text, "singular_values": sing, "counters": out["counters"], "status": out["status"]}
